@@ -12,7 +12,10 @@ Sources read (all from the *current* tree):
 What is emitted (one Lean definition per Rust method, same name, in dependency order):
   * members are abstract: a trait's *required* methods become the fields of a dictionary (`AssumableDict`, `InferableDict`,
     `ObservableDict`) over an arbitrary member type `ι`; `&self`-only methods are readers `ι → Bool | κ`, methods that take data
-    are state-passing `ι → δ → ι × Bool` (interior mutability);
+    are state-passing `ι → δ → ι × Bool` (interior mutability); the member trait's *provided* methods are fields too (a member
+    type may override them: a call `x.is_inferable()` dispatches to the type's implementation), while their default bodies are
+    the definitions `Inferable.is_inferable …`; that a type keeps the defaults is a hypothesis in Props/C18Gen.lean, and that no
+    type of the repository overrides one is checked here (OVERRIDE_FILES);
   * the collection is what the default methods can see of it: `Coll ι = { len, is_empty, get_all_items }` (the required methods);
   * member values (`NumericalValue` that comes out of a member or in through a parameter) have the opaque type `κ`; comparing
     them is abstract: `K.total_cmp`, `K.approx_equal`, `K.ge`, `K.gt`, `K.eq` (`a < b` is emitted as `K.gt b a`, `a <= b` as
@@ -24,15 +27,40 @@ What is emitted (one Lean definition per Rust method, same name, in dependency o
 Recognised grammar (anything else raises Unsupported => the proof obligations of C18 count as broken):
     block      ::= { stmt* [expr] }
     stmt       ::= let [mut] x [: ty] = expr ;  |  for x in expr { [let…;]* if cond { return <bool literal>; } }
-                |  for x in expr { x.<state-passing member method>(args); }       (only as the whole body of a `()` method)
+                |  for x in expr { x.<state-passing member method>(args); } | expr.for_each(|x| { … })   (whole body of a `()` method)
                 |  if cond { return expr; }  |  if cond { stores } [else { stores }]  |  *guard = expr ;  |  return expr ;
                 |  drop(guard);
+                |  x = e; | x op= e; | x.retain(|a| c); | x.push(a); | if c { updates } [else { updates }]       (x a `let mut` local)
+                |  for v in expr { updates of ONE `let mut` local }  |  while let Some(v) = it.next() { … }   (it a fresh iterator)
     expr       ::= literal | x | self.m(args) | x.m(args) | f(args) | (self.fnfield)(x) | e as NumericalValue|f64|usize
                 |  e + - * / e | e == != < <= > >= e | e && e | e || e | !e | -e | &e | *e | (e) | if c { e } else { e }
-                |  Ordering::Greater|Less|Equal | a.total_cmp(&b) | approx_equal(a, b, n) | abs_num(e)
-                |  <items>[.iter()|.into_iter()|.copied()|.cloned()]*.filter(|x| cond)…
-                   [.collect[::<…>]() | .count() | .len() | .all(|x| cond) | .any(|x| cond) | .is_empty()]
-The translator does not normalise: operands stay in source order, double negations stay, `let`s stay.
+                |  match e { pat [| pat]* => e, … } | if let pat = e { e } else { e } | matches!(e, pat [| pat]*)
+                |  Ordering::Greater|Less|Equal | a.total_cmp(&b) | a.partial_cmp(&b) | Some(ord) | None | o.is_gt() … is_ne()
+                |  opt.is_some() | is_none() | map_or(d, |o| e) | is_some_and(|o| e) | unwrap_or(ord)
+                |  approx_equal(a, b, n) | abs_num(e) | usize::from(bool) | bool as usize | Vec::new() | Vec::with_capacity(n)
+                |  <items>[.iter()|.into_iter()|.copied()|.cloned()]*[.filter(|x| cond) | .filter_map(|x| cond.then_some(x))]…
+                   [.collect[::<…>]() | .count() | .len() | .all(|x| cond) | .any(|x| cond) | .is_empty()
+                    | .fold(init, |acc, x| e) | .map(|x| <usize>).sum[::<usize>]()]
+The translator does not normalise: operands stay in source order, double negations stay, `let`s stay. Every new form is
+transcribed into the Lean construct that *is* its meaning, and the equivalences between spellings are proved in Lean
+(Props/C18Gen.lean, "shapes"), not assumed here:
+    match / if let / matches!      Lean `match` on Bool / Ordering / Option Ordering (first matching arm in both languages; Lean's
+                                   elaborator re-checks exhaustiveness and rejects redundant arms); guards are refused
+    a.partial_cmp(&b)              `K.partial_cmp a b` (member values) / `num_partial_cmp a b` (computed numbers), defined in the generated
+                                   header through the *same* abstract `>` and `==` the if-form uses: Some(Greater) iff a > b, Some(Less) iff
+                                   b > a, Some(Equal) iff a == b, None otherwise — which is what f64::partial_cmp returns, NaN included
+                                   (None). `abs_num` via `match val.partial_cmp(&ZERO)` is therefore the same if-tree as `if val > ZERO`.
+                                   No fact relating `>=` to `>`/`==`, or partial_cmp to total_cmp, is stated: a source that swaps them
+                                   is transcribed and then fails its equality proof.
+    Iterator::fold(i, |a, x| e)    `List.foldl (fun a x => e) i` (accumulator usize / f64 / bool)
+    for x in xs { updates of acc } `acc := xs.foldl (fun acc x => acc after the body) acc` — a loop without return/break/continue that
+                                   assigns exactly one `let mut` local; every assignment is a shadowing Lean `let`
+    Vec::retain(p) / push(a)       `filter p` / `++ [a]` on a `let mut` vector;  filter_map(|x| c.then_some(x)) = `List.filterMap`
+    map(|x| n).sum()               `(List.map …).sum` on usize (no overflow: collection sizes are far below 2^64)
+    usize::from(b) / b as usize    `if b then 1 else 0`
+    while let Some(x) = it.next()  the desugaring of `for x in it`, accepted when `it` is a `let mut` iterator not used otherwise
+Still refused: `while` / `loop` / indexing (`items[k]`), `break` / `continue`, `?`, match guards, two accumulators in one loop,
+`.rev()` / `.zip()` / `.enumerate()`, a map to f64 to be summed, closures with more than two parameters.
 """
 import re
 from rsexpr import Unsupported, strip_comments, Parser, BINPREC
@@ -71,7 +99,7 @@ LEAN_KEYWORDS = {'at', 'from', 'end', 'in', 'do', 'then', 'else', 'if', 'let', '
                  'match', 'def', 'theorem', 'where', 'open', 'namespace', 'section', 'structure', 'instance', 'class',
                  'Type', 'Prop', 'Sort', 'return', 'for', 'mut', 'import', 'deriving', 'example', 'variable', 'universe',
                  'abbrev', 'inductive', 'using', 'calc', 'suffices', 'obtain', 'forall', 'exists', 'macro', 'syntax'}
-RESERVED = {'AssumableReasoning', 'Assumable', 'InferableReasoning', 'Inferable', 'ObservableReasoning', 'Observable',
+RESERVED = {'num_partial_cmp', 'some', 'none', 'AssumableReasoning', 'Assumable', 'InferableReasoning', 'Inferable', 'ObservableReasoning', 'Observable',
             'AssumptionImpl', 'Assumption', 'KeyOps', 'AssumableDict', 'InferableDict', 'ObservableDict',
             'K', 'T', 'Coll', 'Rat', 'Nat', 'Bool', 'List', 'Ordering', 'decide', 'ι', 'κ', 'δ', 'ZERO', 'MINUS_ONE', 'abs_num',
             'true', 'false', 'not', 'id'}
@@ -121,24 +149,49 @@ class BodyParser(Parser):
         if kind == 'op' and v == '|':
             return self.closure()
         if kind == 'op' and v == '||':
-            raise Unsupported('closure without parameter')
+            self.next()
+            if self.peek()[1] == '->':
+                raise Unsupported('closure with a return type')
+            return ('closure0', self.block() if self.peek()[1] == '{' else self.expr())
         if kind == 'id' and v == 'if':
             return self.if_expr()
+        if kind == 'id' and v == 'match':
+            return self.match_expr()
+        if kind == 'id' and v == 'matches' and self.peek(1)[1] == '!':
+            # `matches!(e, PAT)`  ==  `match e { PAT => true, _ => false }` (the macro's definition)
+            self.next(), self.next()
+            self.expect('(')
+            scrut = self.expr()
+            self.expect(',')
+            pats = self.pattern()
+            if self.peek()[1] == 'if':
+                raise Unsupported('matches! with a guard')
+            if self.peek()[1] == ',':
+                self.next()
+            self.expect(')')
+            return ('match', scrut, [(pats, ('path', ['true'])), ([('wild',)], ('path', ['false']))])
         if kind == 'op' and v == '{':
             return self.block()
-        if kind == 'id' and v in ('match', 'loop', 'while', 'for', 'let', 'return', 'break', 'continue', 'unsafe', 'async', 'await'):
+        if kind == 'id' and v in ('loop', 'while', 'for', 'let', 'return', 'break', 'continue', 'unsafe', 'async', 'await'):
             raise Unsupported(f'`{v}` in expression position')
         return super().atom()
 
     def closure(self):
+        """`|x| e`, `|&x| e`, `|x: ty| e`, `|_| e`; two parameters `|acc, x| e` -> ('closure2', acc, x, body)"""
         self.expect('|')
-        name, seen_colon = None, False
-        while self.peek()[1] != '|':
+        names, name, seen_colon, depth = [], None, False, 0
+        while not (depth == 0 and self.peek()[1] == '|'):
             kind, v = self.next()
             if kind == 'eof':
                 raise Unsupported('unterminated closure parameter list')
-            if v == ',':
-                raise Unsupported('closure with more than one parameter')
+            if seen_colon:
+                depth += (v in ('<', '(', '[')) - (v in ('>', ')', ']')) - 2 * (v == '>>')
+            if v == ',' and depth == 0:
+                if name is None:
+                    raise Unsupported('closure without a named parameter')
+                names.append(name)
+                name, seen_colon = None, False
+                continue
             if v == ':':
                 seen_colon = True
             if not seen_colon:
@@ -151,19 +204,98 @@ class BodyParser(Parser):
         self.expect('|')
         if name is None:
             raise Unsupported('closure without a named parameter')
+        names.append(name)
+        if len(names) > 2:
+            raise Unsupported('closure with more than two parameters')
+        if self.peek()[1] == '->':
+            raise Unsupported('closure with a return type')
         body = self.block() if self.peek()[1] == '{' else self.expr()
-        return ('closure', name, body)
+        if len(names) == 2:
+            return ('closure2', names[0], names[1], body)
+        return ('closure', names[0], body)
+
+    # ---- patterns of `match` / `if let` / `matches!`
+    def pattern(self):
+        if self.peek()[1] == '|':
+            self.next()
+        alts = [self.pat1()]
+        while self.peek()[1] == '|':
+            self.next()
+            alts.append(self.pat1())
+        return alts
+
+    def pat1(self):
+        kind, v = self.next()
+        if kind != 'id' or v in ('ref', 'mut', 'box'):
+            raise Unsupported('pattern ' + v)
+        if v == '_':
+            return ('wild',)
+        path = [v]
+        while self.peek()[1] == '::':
+            self.next()
+            k2, v2 = self.next()
+            if k2 != 'id':
+                raise Unsupported('pattern path')
+            path.append(v2)
+        if self.peek()[1] == '(':
+            self.next()
+            inner = self.pat1()
+            self.expect(')')
+            return ('pctor', path, inner)
+        if self.peek()[1] in ('{', '@', '.'):
+            raise Unsupported('pattern form')
+        if len(path) == 1 and (v[:1].islower() or v[:1] == '_') and v not in ('true', 'false'):
+            return ('pbind', v)
+        return ('ppath', path)
+
+    def match_expr(self):
+        self.expect('match')
+        scrut = self.expr()
+        self.expect('{')
+        arms = []
+        while self.peek()[1] != '}':
+            if self.peek()[0] == 'eof':
+                raise Unsupported('unterminated match')
+            pats = self.pattern()
+            if self.peek()[1] == 'if':
+                raise Unsupported('match guard')
+            self.expect('=>')
+            if self.peek()[1] == '{':
+                body = self.block()
+                if self.peek()[1] == ',':
+                    self.next()
+            else:
+                if self.peek()[1] in ('return', 'break', 'continue'):
+                    raise Unsupported(f'`{self.peek()[1]}` in a match arm')
+                body = self.expr()
+                if self.peek()[1] == ',':
+                    self.next()
+                elif self.peek()[1] != '}':
+                    raise Unsupported('`,` expected after a match arm')
+            arms.append((pats, body))
+        self.expect('}')
+        if not arms:
+            raise Unsupported('match without arms')
+        return ('match', scrut, arms)
 
     def if_expr(self):
         self.expect('if')
+        pats = None
         if self.peek()[1] == 'let':
-            raise Unsupported('if let')
+            # `if let PAT = e { A } else { B }`  ==  `match e { PAT => { A } _ => { B } }`
+            self.next()
+            pats = self.pattern()
+            self.expect('=')
         cond = self.expr()
         then = self.block()
         els = None
         if self.peek()[1] == 'else':
             self.next()
             els = self.if_expr() if self.peek()[1] == 'if' else self.block()
+        if pats is not None:
+            if els is None:
+                raise Unsupported('`if let` without `else`')
+            return ('match', cond, [(pats, then), ([('wild',)], els)])
         return ('if', cond, then, els)
 
     def skip_generic(self):
@@ -266,12 +398,26 @@ class BodyParser(Parser):
                 it = self.expr()
                 body = self.block()
                 stmts.append(('for', var, it, body))
-            elif v == 'if':
-                e = self.if_expr()
+            elif v in ('if', 'match'):
+                e = self.if_expr() if v == 'if' else self.match_expr()
                 if self.peek()[1] == '}':
                     tail = e
-                else:
+                else:                   # a block-like expression in statement position ends the statement (Rust's rule)
                     stmts.append(('expr', e))
+            elif v == 'while':
+                # `while let Some(x) = it.next() { body }` — the desugaring of `for x in it` (Rust reference), kept as such
+                self.next()
+                if self.peek()[1] != 'let':
+                    raise Unsupported('`while` statement')
+                self.next()
+                pats = self.pattern()
+                self.expect('=')
+                it = self.expr()
+                body = self.block()
+                if len(pats) != 1 or pats[0][0] != 'pctor' or pats[0][1] != ['Some'] or pats[0][2][0] != 'pbind' or \
+                        it[0] != 'mcall' or it[2] != 'next' or it[3] or it[1][0] != 'path' or len(it[1][1]) != 1:
+                    raise Unsupported('`while let` other than `while let Some(x) = it.next()`')
+                stmts.append(('whilelet', pats[0][2][1], it[1][1][0], body))
             elif v == '{':
                 e = self.block()
                 if self.peek()[1] == '}':
@@ -286,7 +432,7 @@ class BodyParser(Parser):
                 stmts.append(('return', e))
                 if self.peek()[1] != '}':
                     raise Unsupported('statements after `return`')
-            elif v in ('while', 'loop', 'match', 'fn', 'struct', 'use', 'const', 'static', 'impl', 'break', 'continue'):
+            elif v in ('loop', 'fn', 'struct', 'use', 'const', 'static', 'impl', 'break', 'continue'):
                 raise Unsupported(f'`{v}` statement')
             else:
                 e = self.expr()
@@ -296,6 +442,14 @@ class BodyParser(Parser):
                     rhs = self.expr()
                     self.expect(';')
                     stmts.append(('assign', e, rhs))
+                elif nxt in ('+=', '-=', '*=', '/='):
+                    self.next()
+                    rhs = self.expr()
+                    if self.peek()[1] == ';':
+                        self.next()
+                    elif self.peek()[1] != '}':
+                        raise Unsupported('`;` expected after an assignment')
+                    stmts.append(('assign', e, ('bin', nxt[0], e, rhs)))
                 elif nxt == ';':
                     self.next()
                     stmts.append(('expr', e))
@@ -429,7 +583,29 @@ def parse_sig(sig, where):
 #   bool nat num(Rat) key(κ) ord mem(ι) coll list data(δ) unit cells ; ('fn', …) for the EvalFn field
 # ----------------------------------------------------------------------------------------------
 LEAN_TY = {'bool': 'Bool', 'nat': 'Nat', 'num': 'Rat', 'key': 'κ', 'ord': 'Ordering', 'mem': 'ι', 'list': 'List ι',
-           'data': 'δ'}
+           'data': 'δ', 'optord': 'Option Ordering', 'nats': 'List Nat'}
+ORD = {'Greater': 'Ordering.gt', 'Less': 'Ordering.lt', 'Equal': 'Ordering.eq'}
+ORD_PREFIX = ([], ['Ordering'], ['cmp', 'Ordering'], ['std', 'cmp', 'Ordering'], ['core', 'cmp', 'Ordering'])
+# std: `is_gt` = matches!(self, Greater), `is_ge` = !matches!(self, Less), …
+ORD_TEST = {'is_gt': ('==', 'gt'), 'is_lt': ('==', 'lt'), 'is_eq': ('==', 'eq'), 'is_ge': ('!=', 'lt'), 'is_le': ('!=', 'gt'),
+            'is_ne': ('!=', 'eq')}
+
+
+def mentions(x, name):
+    """does the identifier occur anywhere in the syntax tree?"""
+    if isinstance(x, (tuple, list)):
+        if len(x) == 2 and x[0] == 'path' and isinstance(x[1], list) and x[1] == [name]:
+            return True
+        return any(mentions(y, name) for y in x)
+    return False
+
+
+def has_return(x):
+    if isinstance(x, (tuple, list)):
+        if len(x) >= 1 and x[0] == 'return':
+            return True
+        return any(has_return(y) for y in x)
+    return False
 
 
 def param_type(ty, where, free=False):
@@ -541,6 +717,7 @@ class Translator:
         self.env = {}          # rust local -> (lean name, type)
         self.guards = {}       # rust local -> cell name
         self.stores = False
+        self.muts = set()      # `let mut` locals: every assignment is a new (shadowing) Lean `let`
         self.depth = 0         # > 0 inside a block that is used as a value: `return` there would leave the function
 
     def fail(self, msg):
@@ -618,6 +795,10 @@ class Translator:
             return self.path(a[1])
         if k == 'if':
             return self.if_value(a)
+        if k == 'match':
+            return self.match_value(a)
+        if k in ('closure', 'closure2', 'closure0'):
+            self.fail('a closure where a value is expected')
         if k == 'block':
             return self.block_value(a, None)
         if k == 'call':
@@ -644,6 +825,8 @@ class Translator:
             s, t = self.e(inner)
             if t == 'nat':
                 return s, t
+            if t == 'bool':                 # `true as usize` = 1, `false as usize` = 0
+                return f'(if {s} then (1 : Nat) else (0 : Nat))', 'nat'
         self.fail('cast to ' + ty)
 
     def path(self, p):
@@ -655,6 +838,8 @@ class Translator:
                 return self.env[n]
             if n in self.u.gen.consts:
                 return n, 'num'
+            if n == 'None':                 # the only Option in this fragment is the Option<Ordering> of partial_cmp
+                return '(none : Option Ordering)', 'optord'
             if n == 'self':
                 self.fail('bare `self`')
             self.fail(f'unknown name `{n}`')
@@ -687,7 +872,7 @@ class Translator:
             if ta in ('num', 'nat'):
                 lop = {'==': '=', '!=': '≠', '<': '<', '<=': '≤', '>': '>', '>=': '≥'}[op]
                 return f'(decide ({a} {lop} {b}))', 'bool'
-            if ta in ('bool', 'ord') and op in ('==', '!='):
+            if ta in ('bool', 'ord', 'optord') and op in ('==', '!='):
                 return f'({a} {op} {b})', 'bool'
             self.fail(f'comparison `{op}` on {ta}')
         self.fail('operator ' + op)
@@ -715,6 +900,21 @@ class Translator:
             if ty != 'data':
                 self.fail('the function field is applied to a ' + ty)
             return f'(self.{lean_id(g[2])} {s})', 'bool'
+        if f[0] == 'path' and f[1] == ['usize', 'from'] and len(args) == 1:
+            s, ty = self.e(args[0])        # `impl From<bool> for usize`: true -> 1, false -> 0
+            if ty != 'bool':
+                self.fail('usize::from of a ' + ty)
+            return f'(if {s} then (1 : Nat) else (0 : Nat))', 'nat'
+        if f[0] == 'path' and f[1] in (['Vec', 'new'], ['Vec', 'with_capacity']) and len(args) == (f[1][1] != 'new'):
+            # an empty vector of members (the only vectors of this fragment), to be filled by `push`
+            if args and self.e(args[0])[1] != 'nat':
+                self.fail('Vec::with_capacity of a non-integer')
+            return '([] : List ι)', 'list'
+        if f[0] == 'path' and f[1] == ['Some'] and len(args) == 1:
+            s, ty = self.e(args[0])
+            if ty != 'ord':
+                self.fail('Some(..) of a ' + ty)
+            return f'(some {s})', 'optord'
         if f[0] == 'path':
             name = f[1][-1]
             if name == 'approx_equal' and len(f[1]) == 1:
@@ -742,6 +942,71 @@ class Translator:
         if ty != 'bool':
             self.fail(f'{what}: closure does not answer a bool')
         return f'(fun {v} => {s})'
+
+    def closure_of(self, c, types, what):
+        """translate a closure whose parameters have the given types -> (lean parameter names, body text, body type)"""
+        want = 'closure2' if len(types) == 2 else 'closure'
+        if c[0] != want:
+            self.fail(f'{what}: a closure with {len(types)} parameter(s) expected')
+        saved = dict(self.env)
+        names = []
+        for n, ty in zip(c[1:1 + len(types)], types):
+            names.append('_' if n == '_' else self.bind(n, ty))
+        body = c[1 + len(types)]
+        self.depth += 1
+        s, ty = self.block_value(body, None) if body[0] == 'block' else self.e(body)
+        self.depth -= 1
+        self.env = saved
+        return names, s, ty
+
+    def match_value(self, a):
+        """Rust `match` on a bool / Ordering / Option<Ordering> -> Lean `match` (first matching arm in both; Lean's
+        elaborator re-checks exhaustiveness and rejects an unreachable arm)"""
+        _, scrut, arms = a
+        s, ts = self.e(scrut)
+        if ts not in ('bool', 'ord', 'optord'):
+            self.fail('match on a ' + ts)
+        out = []
+        for pats, body in arms:
+            lp, binds = [], {}
+            for ptn in pats:
+                txt, b = self.pat(ptn, ts)
+                lp.append(txt)
+                binds.update(b)
+            if binds and len(pats) > 1:
+                self.fail('binding in an or-pattern')
+            saved = dict(self.env)
+            for n, ty in binds.items():
+                self.bind(n, ty)
+            self.depth += 1
+            t = self.block_value(body, None) if body[0] == 'block' else self.e(body)
+            self.depth -= 1
+            self.env = saved
+            out.append((' | '.join(lp), t))
+        tys = {t[1] for _, t in out}
+        if len(tys) > 1:
+            if tys == {'num', 'key'}:
+                out = [(lp, (self.coerce_num(t), 'num')) for lp, t in out]
+                tys = {'num'}
+            else:
+                self.fail(f'match arms of types {sorted(tys)}')
+        return '(match ' + s + ' with ' + ' '.join(f'| {lp} => {t[0]}' for lp, t in out) + ')', tys.pop()
+
+    def pat(self, ptn, ts):
+        if ptn[0] == 'wild':
+            return '_', {}
+        if ptn[0] == 'pbind' and ts in ('bool', 'ord', 'optord'):
+            return lean_id(ptn[1]), {ptn[1]: ts}
+        if ts == 'bool' and ptn[0] == 'ppath' and ptn[1] in (['true'], ['false']):
+            return ptn[1][0], {}
+        if ts == 'ord' and ptn[0] == 'ppath' and ptn[1][-1] in ORD and ptn[1][:-1] in ORD_PREFIX:
+            return ORD[ptn[1][-1]], {}
+        if ts == 'optord' and ptn[0] == 'ppath' and ptn[1] in (['None'], ['Option', 'None']):
+            return 'none', {}
+        if ts == 'optord' and ptn[0] == 'pctor' and ptn[1] in (['Some'], ['Option', 'Some']):
+            inner, b = self.pat(ptn[2], 'ord')
+            return f'some {inner}', b
+        self.fail(f'pattern {ptn!r} on a {ts}')
 
     def mcall(self, obj, name, args):
         # ---- on the collection
@@ -777,9 +1042,63 @@ class Translator:
             if tb != 'key':
                 self.fail('total_cmp against a ' + tb)
             return f'({self.K()}.total_cmp {s} {b})', 'ord'
+        if ty in ('key', 'num') and name == 'partial_cmp' and len(args) == 1:
+            # f64::partial_cmp = Some(Greater) iff a > b, Some(Less) iff a < b, Some(Equal) iff a == b, None otherwise (a NaN);
+            # spelt through the same abstract `>` / `==` the if-form uses (definition in the generated header)
+            b, tb = self.e(args[0])
+            if tb != ty:
+                self.fail(f'partial_cmp of a {ty} against a {tb}')
+            return (f'({self.K()}.partial_cmp {s} {b})' if ty == 'key' else f'(num_partial_cmp {s} {b})'), 'optord'
+        if ty == 'ord' and name in ORD_TEST and not args:
+            op, c = ORD_TEST[name]
+            return f'({s} {op} Ordering.{c})', 'bool'
+        if ty == 'optord':
+            if name in ('is_some', 'is_none') and not args:
+                return f'({s}).{"isSome" if name == "is_some" else "isNone"}', 'bool'
+            if name == 'map_or' and len(args) == 2:
+                d, td = self.e(args[0])
+                (o,), body, tb = self.closure_of(args[1], ['ord'], 'map_or')
+                if td != tb:
+                    self.fail(f'map_or: default is a {td}, the closure answers a {tb}')
+                return f'(match {s} with | some {o} => {body} | none => {d})', tb
+            if name == 'is_some_and' and len(args) == 1:
+                (o,), body, tb = self.closure_of(args[0], ['ord'], 'is_some_and')
+                if tb != 'bool':
+                    self.fail('is_some_and: the closure answers a ' + tb)
+                return f'(match {s} with | some {o} => {body} | none => false)', 'bool'
+            if name == 'unwrap_or' and len(args) == 1:
+                d, td = self.e(args[0])
+                if td != 'ord':
+                    self.fail('unwrap_or of an Option<Ordering> with a ' + td)
+                return f'(match {s} with | some o => o | none => {d})', 'ord'
+        if ty == 'nats':
+            if name in ITER_ID and not args:
+                return s, 'nats'
+            if name == 'sum' and not args:          # usize sum; no overflow: collection sizes are far below 2^64
+                return f'({s}).sum', 'nat'
+            if name in ('count', 'len') and not args:
+                return f'({s}).length', 'nat'
         if ty == 'list':
             if name in ITER_ID and not args:
                 return s, 'list'
+            if name == 'fold' and len(args) == 2:
+                # Iterator::fold(init, f) over the items in order = List.foldl f init
+                init, ti = self.e(args[0])
+                if ti not in ('nat', 'num', 'bool'):
+                    self.fail('fold with an accumulator of type ' + ti)
+                (acc, x), body, tb = self.closure_of(args[1], [ti, 'mem'], 'fold')
+                if tb == 'key' and ti == 'num':
+                    body, tb = self.coerce_num((body, tb)), 'num'
+                if tb != ti:
+                    self.fail(f'fold: accumulator is a {ti}, the closure answers a {tb}')
+                return f'({s}.foldl (fun ({acc} : {LEAN_TY[ti]}) {x} => {body}) {init})', ti
+            if name == 'map' and len(args) == 1:
+                (x,), body, tb = self.closure_of(args[0], ['mem'], 'map')
+                if tb != 'nat':
+                    self.fail('map to a ' + tb + ' (only a map to usize, to be summed, is recognised)')
+                return f'({s}.map (fun {x} => {body}))', 'nats'
+            if name == 'filter_map' and len(args) == 1:
+                return self.filter_map(s, args[0]), 'list'
             if name == 'filter' and len(args) == 1:
                 return f'({s}.filter {self.closure_pred(args[0], "filter")})', 'list'
             if name == 'collect' and not args:
@@ -791,6 +1110,40 @@ class Translator:
             if name == 'is_empty' and not args:
                 return f'{s}.isEmpty', 'bool'
         self.fail(f'method .{name}() on a {ty}')
+
+    def filter_map(self, xs, c):
+        """`filter_map(|x| cond.then_some(x))` / `.then(|| x)` / `if cond { Some(x) } else { None }`: keeps x, in order, iff cond"""
+        if c[0] != 'closure':
+            self.fail('filter_map: closure expected')
+        body = c[2]
+        while body[0] == 'paren' or (body[0] == 'block' and not body[1] and body[2] is not None):
+            body = body[1] if body[0] == 'paren' else body[2]
+
+        def is_param(x):
+            while x[0] in ('paren', 'deref', 'ref'):
+                x = x[1]
+            return x == ('path', [c[1]])
+        cond = None
+        if body[0] == 'mcall' and body[2] == 'then_some' and len(body[3]) == 1 and is_param(body[3][0]):
+            cond = body[1]
+        elif body[0] == 'mcall' and body[2] == 'then' and len(body[3]) == 1 and body[3][0][0] == 'closure0' and is_param(body[3][0][1]):
+            cond = body[1]
+        elif body[0] == 'if' and body[3] is not None and body[3][0] == 'block':
+            t, e = body[2], body[3]
+            if not t[1] and not e[1] and t[2] is not None and e[2] is not None and t[2][0] == 'call' and \
+                    t[2][1] == ('path', ['Some']) and len(t[2][2]) == 1 and is_param(t[2][2][0]) and e[2] == ('path', ['None']):
+                cond = body[1]
+        if cond is None:
+            self.fail('filter_map whose closure is not `cond.then_some(x)` / `if cond { Some(x) } else { None }`')
+        saved = dict(self.env)
+        v = self.bind(c[1], 'mem')
+        self.depth += 1
+        s, ty = self.e(cond)
+        self.depth -= 1
+        self.env = saved
+        if ty != 'bool':
+            self.fail('filter_map: the condition is a ' + ty)
+        return f'({xs}.filterMap (fun {v} => if {s} then some {v} else none))'
 
     def member_call(self, recv, mu, name, args):
         if mu is None or mu.kind != 'member':
@@ -807,7 +1160,10 @@ class Translator:
             return f'(T.{lean_id(name)} {recv})', rty
         if name in mu.defaults:
             rec = mu.need(name)
-            return f'({mu.qual(name)} {mu.kt} {recv}{self.args_for(rec["params"], args, name)})', rec['ret']
+            if name not in mu.dyn_fields or ([t for _, t in rec['params']], rec['ret']) != (mu.dyn_fields[name][0], mu.dyn_fields[name][1]):
+                self.fail(f'provided member method {name} has an unmodelled signature')
+            # dynamic dispatch: the member type's implementation of the provided method (see member_dict)
+            return f'(T.{lean_id(name)} {recv}{self.args_for(rec["params"], args, name)})', rec['ret']
         self.fail(f'member method {name} is not in trait {mu.where}')
 
     # ---------------- statements (pure): a block as a value of type `want`
@@ -859,14 +1215,32 @@ class Translator:
         if self.depth > 0 and st[0] != 'let':
             self.fail('control flow inside a block that is used as a value')
         if st[0] == 'let':
-            if st[3]:
-                self.fail('let mut')
             s, ty = self.e(st[2])
             if ty not in LEAN_TY:
                 self.fail(f'let of a {ty}')
             v = self.bind(st[1], ty)
+            if st[3]:
+                if self.depth > 0:
+                    self.fail('let mut inside a block that is used as a value')
+                self.muts.add(st[1])
+            else:
+                self.muts.discard(st[1])
             r, tr = self.seq(rest, tail)
             return f'(let {v} : {LEAN_TY[ty]} := {s}; {r})', tr
+        upd = self.update(st)
+        if upd is not None:
+            r, tr = self.seq(rest, tail)
+            return f'({upd}; {r})', tr
+        if st[0] == 'whilelet':
+            # `let mut it = xs.iter(); while let Some(x) = it.next() { B }` is what `for x in xs { B }` desugars to; the
+            # iterator must not be looked at again (it is exhausted then, the list it stands for here is not)
+            _, var, itname, body = st
+            if itname not in self.muts or self.env.get(itname, ('', ''))[1] != 'list' or mentions(body, itname) or \
+                    mentions(rest, itname) or mentions(tail, itname):
+                self.fail('`while let Some(x) = it.next()` on something other than a fresh iterator used only here')
+            return self.seq([('for', var, ('path', [itname]), body)] + rest, tail)
+        if st[0] == 'for' and not has_return(st[3]):
+            return self.for_fold(st, rest, tail)
         if st[0] == 'return':
             if rest or tail is not None:
                 self.fail('code after `return`')
@@ -889,6 +1263,116 @@ class Translator:
         if st[0] == 'for':
             return self.for_any(st, rest, tail)
         self.fail('statement ' + st[0] + (' ' + st[1][0] if st[0] == 'expr' else ''))
+
+    # ---------------- `let mut` locals: an assignment is a new Lean `let` that shadows the old one
+    def update(self, st):
+        """`x = e;` / `x op= e;` / `x.retain(|a| c);` / `if c { updates } [else { updates }]` on `let mut` locals
+        -> the Lean text `let x : T := …` (None when `st` is not such a statement)"""
+        if st[0] == 'assign' and st[1][0] == 'path' and len(st[1][1]) == 1 and st[1][1][0] in self.muts:
+            name = st[1][1][0]
+            v, ty = self.env[name]
+            s, ts = self.e(st[2])
+            if ts == 'key' and ty == 'num':
+                s, ts = self.coerce_num((s, ts)), 'num'
+            if ts != ty:
+                self.fail(f'assignment of a {ts} to `{name}`, which is a {ty}')
+            return f'let {v} : {LEAN_TY[ty]} := {s}'
+        if st[0] == 'expr' and st[1][0] == 'mcall' and st[1][2] == 'retain' and st[1][1][0] == 'path' and \
+                len(st[1][1][1]) == 1 and st[1][1][1][0] in self.muts and len(st[1][3]) == 1:
+            # Vec::retain(f): keeps exactly the elements for which f answers true, in their order = List.filter
+            name = st[1][1][1][0]
+            v, ty = self.env[name]
+            if ty != 'list':
+                self.fail('retain on a ' + ty)
+            return f'let {v} : List ι := ({v}.filter {self.closure_pred(st[1][3][0], "retain")})'
+        if st[0] == 'expr' and st[1][0] == 'mcall' and st[1][2] == 'push' and st[1][1][0] == 'path' and \
+                len(st[1][1][1]) == 1 and st[1][1][1][0] in self.muts and len(st[1][3]) == 1:
+            # Vec::push appends at the end
+            name = st[1][1][1][0]
+            v, ty = self.env[name]
+            a, ta = self.e(st[1][3][0])
+            if ty != 'list' or ta != 'mem':
+                self.fail(f'push of a {ta} onto a {ty}')
+            return f'let {v} : List ι := ({v} ++ [{a}])'
+        if st[0] == 'expr' and st[1][0] == 'if' and not has_return(st[1]):
+            _, cond, then, els = st[1]
+            names = sorted(self.assigned(then) | (self.assigned(els) if els is not None else set()))
+            if len(names) != 1 or names[0] not in self.muts:
+                self.fail('`if` statement that neither returns nor updates exactly one `let mut` local')
+            v, ty = self.env[names[0]]
+            c, tc = self.e(cond)
+            if tc != 'bool':
+                self.fail('`if` on a ' + tc)
+            t = self.updates_value(then, v)
+            e = v if els is None else (self.updates_value(els, v) if els[0] == 'block' else
+                                        self.updates_value(('block', [('expr', els)], None), v))
+            return f'let {v} : {LEAN_TY[ty]} := (if {c} then {t} else {e})'
+        return None
+
+    def assigned(self, blk):
+        """names of the locals a block of update statements assigns (anything else in it is refused later)"""
+        out = set()
+        if blk[0] == 'if':
+            return self.assigned(blk[2]) | (self.assigned(blk[3]) if blk[3] is not None else set())
+        if blk[0] != 'block':
+            return out
+        for st in list(blk[1]) + ([('expr', blk[2])] if blk[2] is not None else []):
+            if st[0] == 'assign' and st[1][0] == 'path' and len(st[1][1]) == 1:
+                out.add(st[1][1][0])
+            elif st[0] == 'expr' and st[1][0] == 'mcall' and st[1][2] in ('retain', 'push') and st[1][1][0] == 'path':
+                out.add(st[1][1][1][0])
+            elif st[0] == 'expr' and st[1][0] in ('if', 'block'):
+                out |= self.assigned(st[1])
+        return out
+
+    def updates_value(self, blk, v):
+        """a block consisting of `let`s and updates of the local `v` -> the value of `v` afterwards"""
+        if blk[0] != 'block':
+            self.fail('else if')
+        saved, msaved = dict(self.env), set(self.muts)
+        stmts = list(blk[1])
+        if blk[2] is not None:
+            if blk[2][0] in ('if', 'block'):
+                stmts.append(('expr', blk[2]))
+            else:
+                self.fail('a block of updates with a value')
+        parts = []
+        for st in stmts:
+            if st[0] == 'let' and not st[3]:
+                s, ty = self.e(st[2])
+                if ty not in LEAN_TY:
+                    self.fail(f'let of a {ty}')
+                parts.append(f'let {self.bind(st[1], ty)} : {LEAN_TY[ty]} := {s}')
+                continue
+            if st[0] == 'expr' and st[1][0] == 'block':
+                parts.append(f'let {v} := {self.updates_value(st[1], v)}')
+                continue
+            u = self.update(st)
+            if u is None:
+                self.fail('statement ' + st[0] + ' where only updates of a `let mut` local are recognised')
+            parts.append(u)
+        self.env, self.muts = saved, msaved
+        return '(' + '; '.join(parts + [v]) + ')'
+
+    def for_fold(self, st, rest, tail):
+        """`for x in xs { updates of one `let mut` local acc }` (no return / break / continue)
+        ==  acc = xs.foldl (fun acc x => acc after the body) acc"""
+        _, var, it, body = st
+        xs, tx = self.e(it)
+        if tx != 'list':
+            self.fail('`for` over a ' + tx)
+        names = sorted(self.assigned(body))
+        if len(names) != 1 or names[0] not in self.muts:
+            self.fail('loop body that neither returns nor updates exactly one `let mut` local')
+        acc, ty = self.env[names[0]]
+        if ty not in ('nat', 'num', 'list', 'bool'):
+            self.fail('loop accumulator of type ' + ty)
+        saved = dict(self.env)
+        x = self.bind(var, 'mem')
+        val = self.updates_value(body, acc)
+        self.env = saved
+        r, tr = self.seq(rest, tail)
+        return f'(let {acc} : {LEAN_TY[ty]} := ({xs}.foldl (fun ({acc} : {LEAN_TY[ty]}) {x} => {val}) {acc}); {r})', tr
 
     def for_any(self, st, rest, tail):
         """for x in xs { [let…]* if c { return lit; } } rest   ==   if xs.any (fun x => c) then lit else rest"""
@@ -1049,12 +1533,21 @@ class Translator:
 
         # for a in self.get_all_items() { a.<state-passing>(args); }   as the whole body of a `()` method
         if want == 'unit':
-            if u.kind != 'coll' or blk[2] is not None or len(blk[1]) != 1 or blk[1][0][0] != 'for':
+            only = blk[1][0] if len(blk[1]) == 1 and blk[2] is None else (('expr', blk[2]) if not blk[1] and blk[2] else None)
+            if only is not None and only[0] == 'expr' and only[1][0] == 'mcall' and only[1][2] == 'for_each' and \
+                    len(only[1][3]) == 1 and only[1][3][0][0] == 'closure':
+                # Iterator::for_each(f) calls f on every item in order: the `for` loop
+                cl = only[1][3][0]
+                cbody = cl[2] if cl[2][0] == 'block' else ('block', [('expr', cl[2])], None)
+                only = ('for', cl[1], only[1][1], cbody)
+            if u.kind != 'coll' or only is None or only[0] != 'for':
                 self.fail('a method without a value that is not a single `for` over the members')
-            _, var, it, body = blk[1][0]
+            _, var, it, body = only
             xs, tx = self.e(it)
             if tx != 'list' or xs != 'self.get_all_items':
                 self.fail('`for` not over self.get_all_items()')
+            if has_return(body):
+                self.fail('`return` in the loop over the members')
             stmt = body[1][0] if len(body[1]) == 1 and body[2] is None else (('expr', body[2]) if not body[1] and body[2] else None)
             if stmt is None or stmt[0] != 'expr' or stmt[1][0] != 'mcall' or stmt[1][1] != ('path', [var]):
                 self.fail('loop body is not a single call on the loop variable')
@@ -1121,6 +1614,20 @@ def member_dict(u, name):
         elif f.ret == 'bool' and [t for _, t in f.params] in (['&[NumericalValue]'], ['&[f64]']):
             u.dict_fields[n] = ('state', ['data'], 'bool')
         # anything else (descriptions, ids, function pointers) is not modelled; a default method that calls it is refused
+    # provided (default) methods of the member trait may be overridden by a member type: a call `x.m(..)` from a default method
+    # dispatches to whatever the member type implements, so it goes through the dictionary as well (field `m`); the default
+    # *body* is emitted as the definition `<Trait>.m`, and "the type keeps the default" is a hypothesis of the theorems
+    u.dyn_fields = {}
+    for n, f in u.defaults.items():
+        try:
+            if not f.has_self:
+                continue
+            ptys = [param_type(t, f'{u.where}::{n}') for _, t in f.params]
+            rty = ret_type(f.ret, f'{u.where}::{n}')
+        except Unsupported:
+            continue
+        if rty in LEAN_TY and all(t in LEAN_TY for t in ptys):
+            u.dyn_fields[n] = (ptys, rty)
     u.has_key = any(k == 'reader' and r == 'key' for k, _, r in u.dict_fields.values())
     u.has_data = any('data' in p for _, p, _ in u.dict_fields.values())
     u.targs = 'ι' + (' κ' if u.has_key else '') + (' δ' if u.has_data else '')
@@ -1137,6 +1644,9 @@ def dict_lean(u, doc):
             out.append(f'  {lean_id(n)} : ι → {" → ".join(LEAN_TY[t] for t in ptys)} → ι × {LEAN_TY[rty]}')
     if len(out) == 2:
         raise Unsupported(f'{u.where}: no required method of a modelled type')
+    for n, (ptys, rty) in u.dyn_fields.items():
+        out.append(f'  {lean_id(n)} : ι → {"".join(LEAN_TY[t] + " → " for t in ptys)}{LEAN_TY[rty]}'
+                   f'   -- provided method, as the member type implements it')
     return out + ['']
 
 
@@ -1310,6 +1820,15 @@ def gen_collections(repo):
            'structure KeyOps (κ : Type) where',
            '  total_cmp : κ → κ → Ordering', '  approx_equal : κ → κ → Nat → Bool',
            '  ge : κ → κ → Bool', '  gt : κ → κ → Bool', '  eq : κ → κ → Bool', '  val : κ → Rat', '',
+           '/-- `a.partial_cmp(&b)` on member values (`f64`), through the same abstract comparisons: `Some(Greater)` iff `a > b`,',
+           '`Some(Less)` iff `a < b`, `Some(Equal)` iff `a == b`, `None` when none of them holds (a NaN is involved) — for IEEE',
+           'values exactly one of the four cases applies, so the order of the tests is immaterial there -/',
+           'def KeyOps.partial_cmp {κ : Type} (K : KeyOps κ) (a b : κ) : Option Ordering :=',
+           '  if K.gt a b then some Ordering.gt else if K.gt b a then some Ordering.lt else if K.eq a b then some Ordering.eq else none',
+           '',
+           '/-- `a.partial_cmp(&b)` on computed numbers (exact rationals; `none` is the NaN case, which they do not have) -/',
+           'def num_partial_cmp (a b : Rat) : Option Ordering :=',
+           '  if a > b then some Ordering.gt else if a < b then some Ordering.lt else if a = b then some Ordering.eq else none', '',
            '/-- the required methods of the three `…Reasoning` traits: all a default method can see of the collection -/',
            'structure Coll (ι : Type) where', '  len : Nat', '  is_empty : Bool', '  get_all_items : List ι', '',
            '/-! ## utils/math_utils.rs -/']
